@@ -199,6 +199,10 @@ func (c *Channel) Deliver(out, x []byte) ([]byte, error) {
 			return nil, err
 		}
 		s := c.proposeNewSession(sid, newS)
+		if !c.handshakeTimer.IsPending() {
+			// watch over this handshake as well: the peer may never complete it.
+			c.handshakeTimer.Reset(c.params.HandshakeBackoff)
+		}
 		return s.Handshake(nil), nil
 	}); err != nil {
 		if c.isFatal(err) {
@@ -467,6 +471,13 @@ func (c *Channel) onHandshake() {
 				c.setNext(sessionEntry{ID: id, Session: s2})
 			} else {
 				c.setNext(sessionEntry{})
+				// wake the callers waiting in getOrInit, so that they start a handshake of their own.
+				select {
+				case <-c.ready:
+				default:
+					close(c.ready)
+				}
+				c.ready = make(chan struct{})
 			}
 		}
 		for _, se := range c.sessions {
